@@ -11,6 +11,24 @@ estimate is a validated hypothesis in C07; and a/0 differs between the targets,
 `C09_target_equivalence_fails`).  `Supported` is decidable and is evaluated by
 the driver on every program of the C03 back-end tie (tag `S`).
 
+PROGRAMS THAT DIVIDE (second half of the file): the dependence on that
+hypothesis made explicit.  `C09_program_target_equiv_div`: for every step list
+whose GMW-side instructions are the supported set PLUS `udiv` / `umod`, and
+every input on which the program has a meaning (in particular every divisor
+non-zero), the Yao and the GMW circuit agree IF the quotient estimator
+`goldEstimate` is within one on the DIVIDER INSTANCES of that run
+(`divInstancesOf ins steps args`: operand width, dividend, divisor of every
+`udiv` / `umod` step; `EstOn`).  Stated first for an arbitrary estimator
+(`C09_program_target_equiv_div_est`; non-vacuity: the exact estimator satisfies
+the hypothesis on every instance), then for the code's.  Contrapositive
+(`C09_div_wrong_output_refutes_estimate`): an input on which the GMW circuit
+does not compute the meaning exhibits a divider instance on which the
+hypothesis is FALSE - this is what the check evaluates on the real compiled
+programs for the structured operand classes (harness mode `divs`: maximal /
+top-bit-set dividends x every divisor 1..4096, 2^k, 2^k±1, runs of ones, ...;
+obligation `estimate hypothesis ... evaluated`), a failure being a concrete
+input.
+
 The circuits are the ones BEFORE the optimisation passes; for each target
 `C09_pipeline_preserves` (Props/C09.lean) carries the function across
 ConstPropagate / ShortCircuitXORZero / Prune / Compile, so the statement
@@ -20,6 +38,7 @@ on / off).  What remains validated only: that the SSA step list handed to
 the target except for the builders; checked by the dumps of the C09 tie).
 -/
 import MpcVerif.Props.C03Backend
+import MpcVerif.Proofs.SsaDiv
 
 namespace Mpc
 open Mpc.Mpcl Mpc.Mpcl.Ssa Mpc.SsaC
@@ -60,5 +79,151 @@ example : ssaEval (Nat → Nat) [(0, 4), (1, 4)] exBothTargets [5, 9] = some [(1
 example : ssaCircuitEval false [(0, 4), (1, 4)] exBothTargets [5, 9] =
     ssaCircuitEval true [(0, 4), (1, 4)] exBothTargets [5, 9] :=
   C09_program_target_equiv _ _ (by decide +kernel) (by decide +kernel) _ _ (by decide +kernel : _ = some [(15, 4)])
+
+/-! ## Programs that divide -/
+
+/-- Target axis, programs with unsigned division, ARBITRARY quotient estimator
+`est` in the GMW target's divider (`dividerPad est`: zero pad, `est`, the
+correction step of `NewUDividerGoldschmidtFast`): if `est` is within one on
+every divider instance of the run on `args`, the Yao circuit and the GMW
+circuit compute the same outputs (both the SSA meaning). -/
+theorem C09_program_target_equiv_div_est (est : List Nat → List Nat → Bld.BM (List Nat))
+    (ins : List (Nat × Nat)) (steps : List SInstr)
+    (hy : Supported false ins steps = true) (hg : SupportedE est ins steps = true)
+    (args : List Nat) (r : List (Nat × Nat))
+    (hr : ssaEval (Nat → Nat) ins steps args = some r)
+    (hest : ∀ p ∈ divInstancesOf (Nat → Nat) ins steps args, EstOn est (inputBits ins args) p) :
+    ssaCircuitEval false ins steps args = ssaCircuitEvalE est ins steps args := by
+  rw [C03_backend_correct false ins steps hy args r hr, ssaCircuitEvalE_correct est ins steps hg args r hr hest]
+
+/-- **Target axis, programs with unsigned division, the code's divider.**  For
+every step list (supported set plus `udiv` / `umod` on the GMW side) and every
+input on which the program is defined (so every divisor is non-zero): if
+`goldEstimate` - the quotient estimate of `NewUDividerGoldschmidtFast`, tied
+gate for gate to the Go code by C07 - is within one of the true quotient on the
+divider instances of that run, the circuits of the two targets agree. -/
+theorem C09_program_target_equiv_div (ins : List (Nat × Nat)) (steps : List SInstr)
+    (hy : Supported false ins steps = true) (hg : SupportedDiv ins steps = true)
+    (args : List Nat) (r : List (Nat × Nat))
+    (hr : ssaEval (Nat → Nat) ins steps args = some r)
+    (hest : ∀ p ∈ divInstancesOf (Nat → Nat) ins steps args, EstOn Bld.goldEstimate (inputBits ins args) p) :
+    ssaCircuitEval false ins steps args = ssaCircuitEval true ins steps args := by
+  have hg' : SupportedE Bld.goldEstimate ins steps = true := by
+    simpa [SupportedE, SupportedDiv, ssaCompileE_gold] using hg
+  rw [← ssaCircuitEvalE_gold]
+  exact C09_program_target_equiv_div_est _ ins steps hy hg' args r hr hest
+
+/-- Both circuits compute the meaning (same hypotheses). -/
+theorem C09_program_div_both_targets_compute_meaning (ins : List (Nat × Nat)) (steps : List SInstr)
+    (hy : Supported false ins steps = true) (hg : SupportedDiv ins steps = true)
+    (args : List Nat) (r : List (Nat × Nat))
+    (hr : ssaEval (Nat → Nat) ins steps args = some r)
+    (hest : ∀ p ∈ divInstancesOf (Nat → Nat) ins steps args, EstOn Bld.goldEstimate (inputBits ins args) p) :
+    ssaCircuitEval false ins steps args = some r ∧ ssaCircuitEval true ins steps args = some r := by
+  have h := C09_program_target_equiv_div ins steps hy hg args r hr hest
+  have hyr := C03_backend_correct false ins steps hy args r hr
+  exact ⟨hyr, by rw [← h]; exact hyr⟩
+
+/-- Contrapositive for an arbitrary estimator: an input on which the GMW-shaped
+circuit does NOT compute the program's meaning exhibits a divider instance
+`(n, A, B)` of that run on which the estimator is not within one. -/
+theorem C09_div_wrong_output_refutes_estimate_est (est : List Nat → List Nat → Bld.BM (List Nat))
+    (ins : List (Nat × Nat)) (steps : List SInstr) (hg : SupportedE est ins steps = true)
+    (args : List Nat) (r : List (Nat × Nat))
+    (hr : ssaEval (Nat → Nat) ins steps args = some r)
+    (hwrong : ssaCircuitEvalE est ins steps args ≠ some r) :
+    ∃ p ∈ divInstancesOf (Nat → Nat) ins steps args, ¬ EstOn est (inputBits ins args) p := by
+  apply Classical.byContradiction
+  intro hno
+  have hall : ∀ p ∈ divInstancesOf (Nat → Nat) ins steps args, EstOn est (inputBits ins args) p := by
+    intro p hp
+    apply Classical.byContradiction
+    intro hn
+    exact hno ⟨p, hp, hn⟩
+  exact hwrong (ssaCircuitEvalE_correct est ins steps hg args r hr hall)
+
+/-- Contrapositive, the form the check uses on the code's divider: an input on
+which the GMW circuit of a program does NOT compute the program's meaning
+exhibits a divider instance of that run on which the estimate hypothesis
+(`goldschmidt-estimate-within-one`) is FALSE. -/
+theorem C09_div_wrong_output_refutes_estimate (ins : List (Nat × Nat)) (steps : List SInstr)
+    (hg : SupportedDiv ins steps = true)
+    (args : List Nat) (r : List (Nat × Nat))
+    (hr : ssaEval (Nat → Nat) ins steps args = some r)
+    (hwrong : ssaCircuitEval true ins steps args ≠ some r) :
+    ∃ p ∈ divInstancesOf (Nat → Nat) ins steps args, ¬ EstOn Bld.goldEstimate (inputBits ins args) p := by
+  have hg' : SupportedE Bld.goldEstimate ins steps = true := by
+    simpa [SupportedE, SupportedDiv, ssaCompileE_gold] using hg
+  exact C09_div_wrong_output_refutes_estimate_est _ ins steps hg' args r hr (by rw [ssaCircuitEvalE_gold]; exact hwrong)
+
+/-! ### non-vacuity
+
+`func main(a, b uint4) (uint4, uint4) { return a / b, a % b }` (the `qr` form
+of the division sweep at width 4) on `a = 13, b = 3`. -/
+
+def exDiv : List SInstr :=
+  [⟨.udiv, [.var 0 4, .var 1 4], some (2, 4)⟩,
+   ⟨.umod, [.var 0 4, .var 1 4], some (3, 4)⟩,
+   ⟨.ret, [.var 2 4, .var 3 4], none⟩]
+
+-- the step list is the driver's `qr` form
+example : divForm "qr" 4 4 0 "-" = some ([(0, 4), (1, 4)], exDiv) := rfl
+
+-- its meaning and its two divider instances (width 4, 13, 3)
+example : ssaEval (Nat → Nat) [(0, 4), (1, 4)] exDiv [13, 3] = some [(4, 4), (1, 4)] := by decide +kernel
+example : divInstancesOf (Nat → Nat) [(0, 4), (1, 4)] exDiv [13, 3] = [(4, 13, 3), (4, 13, 3)] := by decide +kernel
+
+-- every hypothesis of C09_program_target_equiv_div_est holds with the exact estimator ...
+example : Supported false [(0, 4), (1, 4)] exDiv = true := by decide +kernel
+example : SupportedE Bld.exactEstimator [(0, 4), (1, 4)] exDiv = true := by decide +kernel
+
+-- ... so the theorem applies: the Yao circuit and the GMW-shaped circuit agree on 13 / 3
+example : ssaCircuitEval false [(0, 4), (1, 4)] exDiv [13, 3] =
+    ssaCircuitEvalE Bld.exactEstimator [(0, 4), (1, 4)] exDiv [13, 3] :=
+  C09_program_target_equiv_div_est _ _ _ (by decide +kernel) (by decide +kernel) _ _
+    (by decide +kernel : _ = some [(4, 4), (1, 4)])
+    (by
+      intro p hp
+      have h : p = (4, 13, 3) := by
+        have : divInstancesOf (Nat → Nat) [(0, 4), (1, 4)] exDiv [13, 3] = [(4, 13, 3), (4, 13, 3)] := by
+          decide +kernel
+        rw [this] at hp
+        simpa using hp
+      subst h
+      exact EstOn_exact _ _ (by decide) (by decide))
+
+-- non-vacuity of the contrapositive: an estimator that always answers 0 (`zeroEstimator`) is not within one of
+-- 13 / 3 = 4; the GMW-shaped circuit with it gives 1 rem 10 instead of 4 rem 1, and the theorem exhibits the instance
+def zeroEstimator (a _b : List Nat) : Bld.BM (List Nat) := do
+  let z ← Bld.zeroWire
+  pure (List.replicate a.length z)
+
+example : SupportedE zeroEstimator [(0, 4), (1, 4)] exDiv = true := by decide +kernel
+example : ssaCircuitEvalE zeroEstimator [(0, 4), (1, 4)] exDiv [13, 3] = some [(1, 4), (10, 4)] := by decide +kernel
+
+example : ∃ p ∈ divInstancesOf (Nat → Nat) [(0, 4), (1, 4)] exDiv [13, 3],
+    ¬ EstOn zeroEstimator (inputBits [(0, 4), (1, 4)] [13, 3]) p :=
+  C09_div_wrong_output_refutes_estimate_est _ _ _ (by decide +kernel) _ _
+    (by decide +kernel : _ = some [(4, 4), (1, 4)]) (by decide +kernel)
+
+-- the estimate hypothesis is satisfiable on EVERY instance with a non-zero divisor (exact estimator)
+example (inp : List Bool) (n A B : Nat) (hn : 0 < n) (hB : 0 < B) : EstOn Bld.exactEstimator inp (n, A, B) :=
+  EstOn_exact inp _ hn hB
+
+-- the code's divider: the structural hypotheses of C09_program_target_equiv_div hold for a dividing program
+-- (`uint1`: the kernel evaluates the Goldschmidt generator only at the smallest widths; wider instances are
+-- evaluated by the compiled drivers of C03 / C07); the remaining hypothesis `hest` is the validated one
+def exDiv1 : List SInstr :=
+  [⟨.udiv, [.var 0 1, .var 1 1], some (2, 1)⟩, ⟨.ret, [.var 2 1], none⟩]
+
+example : Supported false [(0, 1), (1, 1)] exDiv1 = true ∧ SupportedDiv [(0, 1), (1, 1)] exDiv1 = true ∧
+    ssaEval (Nat → Nat) [(0, 1), (1, 1)] exDiv1 [1, 1] = some [(1, 1)] ∧
+    divInstancesOf (Nat → Nat) [(0, 1), (1, 1)] exDiv1 [1, 1] = [(1, 1, 1)] := by
+  refine ⟨?_, ?_, ?_, ?_⟩ <;> decide +kernel
+
+-- and its conclusion, executed: both targets give 1 / 1 = 1
+example : ssaCircuitEval false [(0, 1), (1, 1)] exDiv1 [1, 1] = some [(1, 1)] ∧
+    ssaCircuitEval true [(0, 1), (1, 1)] exDiv1 [1, 1] = some [(1, 1)] := by
+  refine ⟨?_, ?_⟩ <;> decide +kernel
 
 end Mpc
